@@ -109,6 +109,9 @@ def emit_p(ir, ind):
     raise AssertionError(ir)
 
 
+_REINDENT = [False]
+
+
 def emit_m(ir, ind):
     """do-sequence lines"""
     sp = " " * ind
@@ -117,7 +120,17 @@ def emit_m(ir, ind):
     if isinstance(ir, Let): return [sp + "let %s := %s" % (ir.pat, ir.term)] + emit_m(ir.body, ind)
     if isinstance(ir, Bind):
         if isinstance(ir.m, MCall):
-            head = [sp + "let %s ← %s" % (ir.pat, ir.m.term)]
+            term = ir.m.term
+            if "\n" in term and _REINDENT[0]:
+                # (b0809, additive; only for units that ask for it with `"reindent_closures": true`, so that the text
+                # of the other generated files does not change) a closure rendered earlier at a fixed indentation: its continuation lines must stay to
+                # the right of this `let` (Lean ends the enclosing `do`/`match` arm at a line that starts further left)
+                ls = term.split("\n")
+                low = min((len(l) - len(l.lstrip(" ")) for l in ls[1:] if l.strip()), default=ind + 1)
+                if low <= ind:
+                    ls = ls[:1] + [(" " * (ind + 2 - low)) + l if l.strip() else l for l in ls[1:]]
+                    term = "\n".join(ls)
+            head = [sp + "let %s ← %s" % (ir.pat, term)]
         elif not monadic(ir.m):
             head = [sp + "let %s := %s" % (ir.pat, inline(ir.m))]
         else:
@@ -202,6 +215,10 @@ class Unit:
             for n, fields in idx.structs.items():
                 if n not in self.fi.structs:
                     self.fi.structs[n] = fields; self.struct_src[n] = "trusted view declared in translate/x_fn.py"
+            # (b1315, additive) a view may also declare the enums of library types the code matches on
+            for n, vs in idx.enum_data.items():
+                if n not in self.fi.enums and n not in self.fi.enum_data:
+                    self.fi.enum_data[n] = vs; self.fi.enums[n] = None
             for n, vs in idx.enums.items():     # unit-variant enums of library types (e.g. atomic `Ordering`): b1012, round 9
                 self.fi.enums.setdefault(n, vs)
         for r in struct_files:      # struct declarations of other files, used as local structures
@@ -275,6 +292,10 @@ class Unit:
                 return t1
             if n in ("Mutex", "Arc", "RefCell", "MutexGuard", "Rc") and len(t[2]) == 1:
                 return self.resolve(t[2][0], impl)     # trusted: locking is the identity on the protected value
+            if n in ATOMICS and not t[2]:
+                # (b1819) `AtomicUsize` … = the integer it holds; `fetch_add/fetch_sub/store/swap/load` are place
+                # operations on it (sequential semantics: the translated functions are single-threaded executions)
+                return ("int", ATOMICS[n])
             if n in ("BTreeMap", "OrderedMap", "Map", "HashMap", "UnorderedMap") and len(t[2]) >= 2:
                 k = self.resolve(t[2][0], impl)
                 # "map": ordered by key (BTreeMap); "umap": no defined iteration order (HashMap)
@@ -346,6 +367,29 @@ class Unit:
             for f in self.used_fields.get(t[1], []):
                 self.opaques_of(self.struct_field(t[1], f), acc, seen)
         return acc
+
+    def closed_type(self, t, seen=None):
+        """True iff the Lean type of `t` can never get type parameters: no opaque type anywhere in ALL declared fields
+        (not only the fields used so far: `opaques_of` goes by `used_fields`, which grows while the unit is translated,
+        so it cannot decide this at the place of a literal).  Conservative: anything unknown is not closed."""
+        seen = seen if seen is not None else set()
+        k = t[0]
+        if k in ("int", "bool", "str", "unit"): return True
+        if k in ("opt", "vec", "set", "uset"): return self.closed_type(t[1], seen)
+        if k == "tuple": return all(self.closed_type(x, seen) for x in t[1])
+        if k == "enum": return self.fi.enums.get(t[1]) is not None
+        if k == "struct":
+            if t[1] in seen: return True
+            seen.add(t[1])
+            for fn, ty in self.fi.structs.get(t[1], [(None, None)]):
+                if ty is None: return False
+                try:
+                    rt = self.resolve(ty, t[1])
+                except RsError:
+                    return False
+                if not self.closed_type(rt, seen): return False
+            return True
+        return False
 
     def lt(self, t, top=True):
         k = t[0]
@@ -444,11 +488,15 @@ class Unit:
         return info
 
     def try_fn(self, impl, name):
+        keep = _REINDENT[0]
+        _REINDENT[0] = bool(getattr(self, "reindent_closures", False))     # closures are rendered while translating
         try:
             return self.get_fn(impl, name)
         except RsError as e:
             self.failed.setdefault((impl, name), str(e))
             return None
+        finally:
+            _REINDENT[0] = keep
 
     # ---- emission
     def emit(self):
@@ -618,6 +666,7 @@ class FnTranslator:
         self.params = params
         blk = f["body"]
         self.prescan(blk)
+        self.str_lets = self.scan_str_lets(blk, [p[0] for p in params])
         ir = self.stmts(blk[1], blk[2], env, self.fin_return)
         info = FnInfo()
         info.impl, info.name = self.impl, f["name"]
@@ -644,6 +693,47 @@ class FnTranslator:
         info.out_ty = self.out_type()
         info.lean_lines = lambda: fn_lean_lines(info)
         return info
+
+    def scan_str_lets(self, blk, param_names):
+        """(b1819, derive.rs `let hkdf_info = "c-lightning"; … hkdf_info.as_bytes()`) names bound exactly once in the
+        whole body, by `let x = "literal";`, never assigned and not a parameter: name -> the literal.  Only used to spell
+        out `x.as_bytes()`; anything else about such a variable is translated as before."""
+        lets, bad, count = {}, set(param_names), {}
+        def walk(e):
+            if isinstance(e, tuple):
+                if e and e[0] == "pvar" and len(e) > 1 and isinstance(e[1], str):
+                    count[e[1]] = count.get(e[1], 0) + 1      # every binder of the name, whatever the construct
+                if e and e[0] == "let" and isinstance(e[1], tuple) and e[1][0] == "pvar" and e[3] is not None and e[3][0] == "str":
+                    lets[e[1][1]] = e[3][1]
+                if e and e[0] == "assign":
+                    try: bad.add(self.place_root(e[2]))
+                    except RsError: pass
+                if e and e[0] == "ref" and len(e) > 2 and e[2] is True:
+                    try: bad.add(self.place_root(e[1]))
+                    except RsError: pass
+                for x in e: walk(x)
+            elif isinstance(e, list):
+                for x in e: walk(x)
+        walk(blk)
+        return {k: v for k, v in lets.items() if k not in bad and count.get(k) == 1}
+
+    def once_bound(self, blk):
+        """names with exactly one binder in the whole body, never assigned, never `&mut`-borrowed, not a parameter"""
+        bad, count = set(p[0] for p in self.params), {}
+        def walk(e):
+            if isinstance(e, tuple):
+                if e and e[0] == "pvar" and len(e) > 1 and isinstance(e[1], str): count[e[1]] = count.get(e[1], 0) + 1
+                if e and e[0] == "assign":
+                    try: bad.add(self.place_root(e[2]))
+                    except RsError: pass
+                if e and e[0] == "ref" and len(e) > 2 and e[2] is True:
+                    try: bad.add(self.place_root(e[1]))
+                    except RsError: pass
+                for x in e: walk(x)
+            elif isinstance(e, list):
+                for x in e: walk(x)
+        walk(blk)
+        return set(k for k, n in count.items() if n == 1 and k not in bad)
 
     def lock_alias(self, e):
         """`X.lock().unwrap()` / `.expect(..)` -> X"""
@@ -780,6 +870,15 @@ class FnTranslator:
                 return self.wrap(pre, P(self.pack(env, r[0])))
         raise RsError("Result-typed tail expression outside the subset: %s" % e[0])
 
+    def log_only_iflet_err(self, s, var):
+        """statement `if let Err(..) = var { logging macros only }` (no else)"""
+        if not (s[0] == "expr" and s[1][0] == "iflet" and s[1][4] is None): return False
+        _, pat, scrut, body, _ = s[1]
+        if scrut != ("path", [var]) or pat[0] != "pctor" or pat[1] != ["Err"]: return False
+        if body[0] != "block" or body[2] is not None: return False
+        logs = LOG_MACROS + tuple(getattr(self.u, "log_macros", ()))
+        return all(it[0] == "expr" and it[1][0] == "macro" and it[1][1] in logs for it in body[1])
+
     def err_tag(self, e, env, pre):
         """Lean String term standing for an error value"""
         if e[0] == "unit": return '"()"'
@@ -787,6 +886,11 @@ class FnTranslator:
         if e[0] == "call" and e[1][0] == "path" and e[1][1][-1] == "policy_error":
             term, ty = self.expr(e[2][0], env, pre, ("str",))
             self.dropped.append("message of policy_error(..)")
+            return term
+        if e[0] == "call" and e[1][0] == "path" and e[1][1][-1] == "temporary_policy_error" and len(e[2]) == 2:
+            # (b0507) policy/error.rs: same tag, kind TemporaryPolicy instead of Policy (as for temporary_policy_err!)
+            term, ty = self.expr(e[2][0], env, pre, ("str",))
+            self.dropped.append("message and the `temporary` kind of temporary_policy_error(..)")
             return term
         if e[0] == "call" and e[1][0] == "path" and e[1][1][-1] in self.u.error_ctors and len(e[2]) == 1:
             # declared error constructor carrying a list of indices: tag = "<prefix> " ++ toString list
@@ -900,7 +1004,8 @@ class FnTranslator:
                 except RsError:
                     pass
         if k == "mcall":
-            if e[2] in MUT_METHODS or e[2] == "take" or self.is_mut_self_call(e):
+            if e[2] in MUT_METHODS or e[2] == "take" or self.is_mut_self_call(e) or e[2] in ATOMIC_OPS \
+                    or any(n.endswith("." + e[2]) and x.get("updates_receiver") for n, x in self.u.externals.items()):
                 try:
                     r = self.place_root(e[1])
                     if r not in declared and r not in acc: acc.append(r)
@@ -959,6 +1064,13 @@ class FnTranslator:
         if k == "let":
             _, pat, ty, e, line = st
             if e is None: raise RsError("let without initialiser (line %d)" % line)
+            # (b06, round 9) locals bound to a by-value copy `let [mut] v = <expr>.clone();`: a `&mut self` method of
+            # the file may be called on them (the write cannot alias anything else); any other `let` of the name ends that
+            if pat[0] == "pvar":
+                owned = getattr(self, "owned_locals", None)
+                if owned is None: owned = self.owned_locals = set()
+                if e[0] == "mcall" and e[2] == "clone" and not e[4]: owned.add(pat[1])
+                else: owned.discard(pat[1])
             want = self.u.resolve(ty, self.impl) if ty is not None else None
             if want is None and pat[0] == "pvar" and e[0] == "call" and e[1][0] == "path" and len(e[1][1]) == 2 \
                     and e[1][1][1] in ("new", "with_capacity", "default") and self.f["body"][2] == ("path", [pat[1]]) \
@@ -972,6 +1084,12 @@ class FnTranslator:
                 return self.stmts(rest, tail, env2, fin)
             if pat[0] == "pvar" and ("let:" + pat[1]) in self.u.externals:
                 return self.let_external(pat[1], e, line, rest, tail, env, fin)
+            if pat[0] == "pvar" and ty is None and e[0] in ("call", "mcall") and self.is_result and tail == ("path", [pat[1]]) \
+                    and rest and all(self.log_only_iflet_err(s, pat[1]) for s in rest):
+                # (b0507) `let res = f(..); if let Err(ref e) = res { <logging only> } res`: the Result of the call is
+                # passed on unchanged; the logging block is dropped like every logging macro
+                self.dropped.append("`if let Err(..) = %s { logging only }` after line %d" % (pat[1], line))
+                return self.stmts([], e, env, fin)
             if e[0] == "macro" and e[1] == "scoped_debug_return" and pat[0] == "pvar" \
                     and "scoped_debug_return" not in getattr(self.u, "log_macros", ()):
                 # util/debug_utils.rs: a guard that `debug!`-prints its arguments when it is dropped while its flag is
@@ -1008,6 +1126,30 @@ class FnTranslator:
                 return self.wrap(pre, self.stmts(rest, tail, env2, fin))
             if e[0] in ("if", "iflet", "match") and self.has_jump(e):
                 raise RsError("return inside a let initialiser (line %d)" % line)
+            if pat[0] == "pvar" and e[0] == "mcall" and e[2] in ("unwrap", "expect") and e[1][0] == "mcall" \
+                    and e[1][2] == "try_into" and not e[1][4]:
+                # (b1819, derive.rs) `let x: [T; N] = slice.try_into().unwrap();`, or without annotation when `x` is bound
+                # once, never assigned, and stands as a component of the function's tail tuple whose declared type is
+                # `[T; N]` (that is where rustc takes the array type from): `Rs.arrayOfSlice N slice` (panic unless len = N)
+                aty = ty
+                if aty is None and self.f["body"][2] is not None and pat[1] in self.once_bound(self.f["body"]):
+                    tl, rt = self.f["body"][2], self.f["ret"]
+                    if rt is not None and rt[0] == "result" and tl[0] == "call" and tl[1] == ("path", ["Ok"]) and len(tl[2]) == 1:
+                        tl, rt = tl[2][0], rt[1]
+                    if tl == ("path", [pat[1]]): aty = rt
+                    elif tl[0] == "tuple" and rt is not None and rt[0] == "tuple" and len(tl[1]) == len(rt[1]):
+                        ix = [i for i, c in enumerate(tl[1]) if c == ("path", [pat[1]])]
+                        if len(ix) == 1: aty = rt[1][ix[0]]
+                if aty is None or aty[0] != "array" or aty[2][0] != "int":
+                    raise RsError("try_into().unwrap() without a known array type [T; N] (line %d)" % line)
+                pre = []
+                term, t = self.expr(e[1][1], env, pre, None)
+                if t[0] != "vec": raise RsError("try_into on %r" % (t,))
+                self.check_ty(t, self.u.resolve(aty, self.impl), "let at line %d" % line)
+                env2 = dict(env)
+                lp = self.bind_pat(pat, t, env2)
+                pre.append(("bind", lp, MCall("Rs.arrayOfSlice %d %s" % (int(aty[2][1]), self.paren(term)))))
+                return self.wrap(pre, self.stmts(rest, tail, env2, fin))
             if ty is None and pat[0] == "pvar" and self.lit_only(e) and e[0] != "int":
                 return self.let_inferred(pat, e, env, rest, tail, fin, line)    # e.g. `let mut min = 1 << 48;`
             pre = []
@@ -1083,7 +1225,7 @@ class FnTranslator:
         cast, where rustc would default to i32)."""
         snap, restore = self.snap_state, self.restore_state
         s0 = snap()
-        good = []
+        good, why = [], []
         for cand in ("u64", "u32", "usize", "u16", "u8", "u128"):
             t = ("int", cand)
             try:
@@ -1095,11 +1237,12 @@ class FnTranslator:
                 pre.append(("let", lp, term))
                 ir = self.wrap(pre, self.stmts(rest, tail, env2, fin))
                 good.append((cand, ir, snap()))
-            except RsError:
-                pass
+            except RsError as ex:
+                why.append("%s: %s" % (cand, ex))
             restore(s0)
         if len(good) != 1:
-            raise RsError("integer literal without a type (line %d): %d unsigned types fit the later uses" % (line, len(good)))
+            raise RsError("integer literal without a type (line %d): %d unsigned types fit the later uses%s"
+                          % (line, len(good), (" [" + why[2] + "]") if not good and len(why) > 2 else ""))
         restore(good[0][2])
         return good[0][1]
 
@@ -1512,7 +1655,9 @@ class FnTranslator:
             a = split_macro_args(toks, self.u.rel)
             # receiver: `self`, or a local bound to a declared-and-dropped external such as `self.validator()` (its value
             # is `()`: whichever validator it is, its policy filter is the external `policy_filter_err`)
-            via_local = a[0][0] == "path" and len(a[0][1]) == 1 and env.get(a[0][1][0]) == UNIT
+            via_local = a[0][0] == "path" and len(a[0][1]) == 1 and env.get(a[0][1][0]) in (UNIT, ("opaque", "Validator"))
+            # (b06, round 9) ... or a parameter of the opaque type `Validator` (`Arc<dyn Validator>`): the macro only reads
+            # its policy filter, which is the same external `policy_filter_err`
             if a[0] != ("path", ["self"]) and not via_local: raise RsError("policy_err! on something else than self")
             if not (self.trait_self or "self" in env): raise RsError("policy_err! without self")
             tag, t = self.expr(a[1], env, pre, ("str",))
@@ -1609,6 +1754,20 @@ class FnTranslator:
 
     def effect_call(self, e, env, pre):
         """expression statement that is a call: mutating Vec methods on a place, &mut self methods, `?` calls"""
+        if e[0] == "mcall" and any(n.endswith("." + e[2]) and x.get("updates_receiver") for n, x in self.u.externals.items()):
+            # (b1819) declared external `T.m` with flag "updates_receiver": a `&mut self` method of a value of an opaque /
+            # foreign type (`HashEngine::input`): `X.m(args);` is `X = ext_T_m(X, args)` — a pure function from the old
+            # receiver and the arguments to the new receiver (its declared `ret` must be `T`)
+            try:
+                self.place_root(e[1]); _, bt0 = self.expr(e[1], env, [], None)
+            except RsError:
+                bt0 = None
+            if bt0 is not None and bt0[0] in ("opaque", "struct"):
+                nm = "%s.%s" % (bt0[1], e[2])
+                if nm in self.u.externals and self.u.externals[nm].get("updates_receiver"):
+                    term, t, _ = self.call_external(nm, [e[1]] + list(e[4]), env, pre)
+                    self.check_ty(t, bt0, nm)
+                    return self.place_set(e[1], term, env, pre)
         if e[0] == "mcall" and e[2] in MUT_METHODS:
             recv = e[1]
             base, bt = self.place_get(recv, env, pre)
@@ -1764,7 +1923,10 @@ class FnTranslator:
         fn = "(fun %s %s => do\n%s)" % (tup, xp, "\n".join(emit_m(bir, 8)))
         if ctx.get("ret"):
             r, v = self.fresh("lr"), self.fresh("rv")
-            rt = self.u.lt(self.out_type(), False)
+            # the result type is printed when the function is emitted (like `LazyTy`): a structure it mentions can still
+            # gain type parameters while the rest of the body is translated (b0809, approver.rs `MemoApprover`)
+            late = self.u.__dict__.setdefault("late_types", {})
+            rt = "⟦late%d⟧" % len(late); late[rt] = self.out_type()
             pre.append(("bind", r, MCall("Rs.loopM (ρ := %s) %s %s %s" % (rt, lst, tup, fn))))
             return self.wrap(pre, Match(r, [(".inl %s" % tup, cont(env)), (".inr %s" % v, self.ret_value(v))]))
         pre.append(("bind", tup, MCall("Rs.loopB %s %s %s" % (lst, tup, fn))))
@@ -1929,6 +2091,9 @@ class FnTranslator:
             if t == INTLIT: return str(e[1]), INTLIT
             return self.lit(e[1], t), t
         if k == "bool": return ("true" if e[1] else "false"), BOOL
+        if k == "str" and len(e) > 2 and e[2] == "b" and want == ("vec", ("int", "u8")) and "\\" not in e[1]:
+            # (b1819) byte-string literal `b"…"` where bytes are expected: its bytes, spelled out (no escapes admitted)
+            return "[" + ", ".join(str(b) for b in e[1].encode("utf-8")) + "]", ("vec", ("int", "u8"))
         if k == "str": return json.dumps(e[1], ensure_ascii=False), ("str",)
         if k == "unit": return "()", UNIT
         if k == "tuple":
@@ -1980,6 +2145,11 @@ class FnTranslator:
             self.check_ty(nt, ("int", "usize"), "array length")
             return "(List.replicate %s %s)" % (n, x), ("vec", xt)
         if k == "range":
+            if e[1] is not None and e[2] is not None and not e[3]:
+                # (b0809, additive) `(a..b)` as the source of an iterator chain (`(0..n).map(|i| …).collect()`): the same
+                # list `Rs.range a b` a `for i in a..b` runs over
+                term, el = self.iter_expr(e, env, pre)
+                return term, ("iter", el)
             raise RsError("range expression outside a for loop or an index")
         if k == "index":
             base, bt = self.expr(e[1], env, pre, None)
@@ -2062,7 +2232,7 @@ class FnTranslator:
             term, t = self.expr(fe, env, pre, ft)
             self.check_ty(t, ft, "field %s" % f)
             parts.append("%s := %s" % (lid(f), term))
-        if str(self.u.struct_src.get(name, "")).startswith("trusted view") and not self.u.opaques_of(("struct", name), []):
+        if str(self.u.struct_src.get(name, "")).startswith("trusted view") and self.u.closed_type(("struct", name)):
             # (b1617, round 9) a literal of a declared view may initialise a `let` (no expected type in Lean): ascribe it
             return "({ " + ", ".join(parts) + " } : " + name + ")", ("struct", name)
         return "{ " + ", ".join(parts) + " }", ("struct", name)
@@ -2713,6 +2883,8 @@ class FnTranslator:
             if info.mut_params: raise RsError("callee with &mut parameters")
             a = self.args_for(info, args, env, pre)
             if info.mut_self:
+                if v not in self.mut_params and v in getattr(self, "owned_locals", ()) and not info.is_result:
+                    return self.invoke(info, recv, args, env, pre)     # stored back into the local (by-value copy)
                 if v not in self.mut_params: raise RsError("&mut self method on a receiver that is not a &mut parameter")
                 if info.is_result: raise RsError("Result-returning &mut method on a parameter")
                 term, t, kind = self.call_translated(info, a, env, pre, lid(v))
@@ -2745,8 +2917,8 @@ class FnTranslator:
             pre.append(("let", v, base))
             self.place_set(recv, "none", env, pre)
             return v, bt, "val"
-        if recv[0] in ("field", "mcall"):
-            # `self.inner.method(..)` / `self.validator().method(..)` with a receiver of an opaque type
+        if recv[0] in ("field", "mcall", "call"):
+            # `self.inner.method(..)` / `self.validator().method(..)` / `f(x).method(..)` (b1819) with a receiver of an opaque type
             # (`Arc<dyn Trait>`): a method external on it
             pre0, n0 = [], self.n      # (a probe of the receiver's type: must not consume fresh names)
             try:
@@ -2804,6 +2976,8 @@ class FnTranslator:
         if k == "str" and m == "as_bytes" and not args:
             r0 = recv
             while r0[0] in ("paren", "ref"): r0 = r0[1]
+            if r0[0] == "path" and len(r0[1]) == 1 and r0[1][0] in getattr(self, "str_lets", {}):
+                r0 = ("str", self.str_lets[r0[1][0]])      # an immutable local bound once to a literal
             if r0[0] != "str": raise RsError("method .as_bytes on a &str that is not a literal is outside the subset (line %d)" % line)
             return "[" + ", ".join(str(b) for b in r0[1].encode("utf-8")) + "]", ("vec", ("int", "u8")), "val"
         if k == "map" and bt[1] == ("str",) and m == "get" and len(args) == 1:
@@ -2861,7 +3035,7 @@ class FnTranslator:
         except RsError:
             return None
         k = bt[0]
-        if k not in ("vec", "opt", "map", "umap", "set", "uset"): return None
+        if k not in ("vec", "opt", "map", "umap", "set", "uset") and not (is_uint(bt) and m in ATOMIC_OPS): return None
         U = ("int", "usize")
         def arg(i, ty):
             term, t = self.expr(args[i], env, pre, ty)
@@ -2869,6 +3043,24 @@ class FnTranslator:
             return self.paren(term)
         def setp(new):
             self.place_set(recv, new, env, pre)
+        if is_uint(bt):
+            # (b1819) std::sync::atomic integers: the `Ordering` argument is not evaluated; `fetch_add/fetch_sub` wrap
+            # around on overflow (documented behaviour of the atomics) and return the previous value
+            def is_ordering(a):
+                return a[0] == "path" and len(a[1]) >= 2 and a[1][-2] == "Ordering"
+            if m in ("fetch_add", "fetch_sub") and len(args) == 2 and is_ordering(args[1]):
+                base, _ = self.expr(recv, env, pre, None); x = arg(0, bt)
+                v = self.fresh("old"); pre.append(("let", v, base))
+                setp("(Rs.%s %s %s %s)" % ("uwrapAdd" if m == "fetch_add" else "uwrapSub", UMAX[bt[1]], v, x)); return v, bt, "val"
+            if m == "swap" and len(args) == 2 and is_ordering(args[1]):
+                base, _ = self.expr(recv, env, pre, None); x = arg(0, bt)
+                v = self.fresh("old"); pre.append(("let", v, base))
+                setp(x); return v, bt, "val"
+            if m == "store" and len(args) == 2 and is_ordering(args[1]):
+                x = arg(0, bt); setp(x); return "()", UNIT, "val"
+            if m == "load" and len(args) == 1 and is_ordering(args[0]):
+                base, _ = self.expr(recv, env, pre, None); return base, bt, "val"
+            return None
         if k == "vec":
             el = bt[1]
             if m in ("push_back", "push") and len(args) == 1:
@@ -3112,8 +3304,10 @@ class FnTranslator:
         raise RsError("iterator method .%s is outside the subset" % m)
 
 
+ATOMICS = {"AtomicUsize": "usize", "AtomicU64": "u64", "AtomicU32": "u32", "AtomicU16": "u16", "AtomicU8": "u8"}
+ATOMIC_OPS = ("fetch_add", "fetch_sub", "swap", "store", "load")
 MUTATORS = ("push", "push_back", "push_front", "pop", "pop_back", "pop_front", "extend_from_slice", "extend", "remove",
-            "retain", "drain", "reverse", "get_or_insert", "replace", "insert", "clear")
+            "retain", "drain", "reverse", "get_or_insert", "replace", "insert", "clear") + ATOMIC_OPS
 MUT_METHODS = ("resize", "insert", "push", "clear", "truncate", "extend", "remove", "pop", "retain", "drain", "sort",
                "iter_mut", "push_front", "push_back", "pop_front", "pop_back", "append", "extend_from_slice", "reverse",
                "get_or_insert", "replace", "copy_from_slice")
@@ -3149,8 +3343,13 @@ def fn_lean_lines(info):
     L.append("-/")
     if info.monadic:
         L.append("def %s%s : Rs.M %s := do" % (info.lean_name, sig, rt))
-        L += emit_m(info.ir, 2)
+        _REINDENT[0] = bool(getattr(u, "reindent_closures", False))
+        try: L += emit_m(info.ir, 2)
+        finally: _REINDENT[0] = False
     else:
         L.append("def %s%s : %s :=" % (info.lean_name, sig, rt))
         L += emit_p(info.ir, 2)
+    late = getattr(u, "late_types", None)
+    if late:
+        L = [re.sub(r"⟦late\d+⟧", lambda m: u.lt(late[m.group(0)], False), l) if "⟦late" in l else l for l in L]
     return L
